@@ -1,7 +1,7 @@
 //! C19 — k-mer / q-gram indexing and sparse chaining.
 //!
 //! ```text
-//! codes  <alpha hex> <q> <text hex>                        => w=<width> f=<codes> r=<codes>
+//! codes  <alpha hex> <q> <text hex> <gram/gram/…|->            => w=<width> f=<codes> r=<codes> x=<codes>
 //! idx    <alpha hex> <q> <max_count|max> <text hex> <q;q;…> => ok <res;res;…> | BUILDPANIC <class>
 //!        query: g:<gram hex> | m:<min_count>:<pattern hex> | e:<pattern hex>
 //! kmer   <k> <x hex> <y hex> <match_score> <gap_open> <gap_extend>
@@ -220,7 +220,31 @@ fn gen_codes(rng: &mut Rng, out: &mut Vec<String>) {
     if rng.chance(1, 4) {
         given.push(alpha[rng.below(alpha.len())]);
     }
-    out.push(format!("codes {} {} {}", hex(&given), q, hex(&text)));
+    // extra q-grams whose codes are requested: words over the lowest and the highest symbol (a width that is one bit
+    // short makes them collide), a few random ones, a few windows of the text again
+    let mut extras: Vec<Vec<u8>> = vec![];
+    let (lo, hi) = (alpha[0], alpha[alpha.len() - 1]);
+    for _ in 0..6 {
+        extras.push((0..q).map(|_| if rng.chance(1, 2) { lo } else { hi }).collect());
+    }
+    extras.push(vec![lo; q]);
+    extras.push(vec![hi; q]);
+    if alpha.len() > 2 {
+        let mid = alpha[alpha.len() / 2];
+        extras.push((0..q).map(|i| if i == 0 { mid } else { lo }).collect());
+        extras.push((0..q).map(|i| if i + 1 == q { mid } else { lo }).collect());
+    }
+    for _ in 0..3 {
+        extras.push(rng.seq(&alpha, q));
+    }
+    if text.len() >= q {
+        for _ in 0..2 {
+            let i = rng.below(text.len() - q + 1);
+            extras.push(text[i..i + q].to_vec());
+        }
+    }
+    let xs: Vec<String> = extras.iter().map(|g| hex(g)).collect();
+    out.push(format!("codes {} {} {} {}", hex(&given), q, hex(&text), xs.join("/")));
 }
 
 fn gen_idx(rng: &mut Rng, out: &mut Vec<String>) {
@@ -494,7 +518,8 @@ pub fn gen(tier: &str, rng: &mut Rng, out: &mut Vec<String>) {
                     for mc in ["max", "1"] {
                         out.push(format!("idx {} {} {} {} {}", hex(&alpha), q, mc, hex(t), qs.join(";")));
                     }
-                    out.push(format!("codes {} {} {}", hex(&alpha), q, hex(t)));
+                    let xs: Vec<String> = grams.iter().map(|g| hex(g)).collect();
+                    out.push(format!("codes {} {} {} {}", hex(&alpha), q, hex(t), xs.join("/")));
                 }
             }
         }
@@ -541,7 +566,7 @@ pub fn exec(toks: &[&str]) -> Result<String, String> {
     }
     match toks[0] {
         "codes" => {
-            if toks.len() != 4 {
+            if toks.len() != 5 {
                 return Err("arity".into());
             }
             let alpha = unhex(toks[1])?;
@@ -551,12 +576,22 @@ pub fn exec(toks: &[&str]) -> Result<String, String> {
                 return Err("domain".into());
             }
             check_word(&alpha, &text)?;
+            let mut extras = vec![];
+            for g in split_list(toks[4], '/') {
+                let g = unhex(g)?;
+                if g.len() != q as usize {
+                    return Err("gram length".into());
+                }
+                check_word(&alpha, &g)?;
+                extras.push(g);
+            }
             let a = Alphabet::new(&alpha);
             let ranks = RankTransform::new(&a);
             let w = ranks.get_width();
             let f: Vec<usize> = ranks.qgrams(q, &text).collect();
             let r: Vec<usize> = ranks.rev_qgrams(q, &text).collect();
-            Ok(format!("w={} f={} r={}", w, join(&f, ","), join(&r, ",")))
+            let x: Vec<usize> = extras.iter().map(|g| ranks.qgrams(q, g).next().unwrap()).collect();
+            Ok(format!("w={} f={} r={} x={}", w, join(&f, ","), join(&r, ","), join(&x, ",")))
         }
         "idx" => {
             if toks.len() != 6 {
